@@ -407,6 +407,13 @@ K('bool_is_equivalent', BO + 'is_equivalent', [p('a', BOOLP), p('b', BOOLP), S('
   'B', 'Bool', ['C04'])
 
 
+
+# ------------------------------------------------------------------ Face3D kernels
+FACE = 'geometry3d.face:Face3D.'
+K('face3d_normal_from_3pts', FACE + '_normal_from_3pts',
+  [p('pt1', P3), p('pt2', P3), p('pt3', P3)], 'V3', 'Face', ['C06', 'C01'])
+
+
 def all_kernels():
     import copy
     return copy.deepcopy(KERNELS)
